@@ -19,6 +19,7 @@ func init() {
 			ruleChunkHeaderCodec(c, r, t, "")
 			ruleWriterChunkLegality(c, r, t, "")
 			ruleStartChunkEffects(c, r, t, "")
+			ruleStateResetCE(c, r, "") // the "state reset" chunk kinds really start from the initial coder state
 			ruleRawEOFFlag(c, r, "")
 			ruleBudgetFresh(c, r, "")
 			ruleByteAtGuards(c, r, "")
